@@ -14,7 +14,9 @@ import logging
 import os
 import re
 import shutil
+import sys
 import tempfile
+import threading
 import time
 
 import common
@@ -827,6 +829,8 @@ class C14(Check):
         return hashlib.sha1(repr(self.show(c)).encode()).hexdigest()
 
     def show(self, c):
+        if c.get("_extra"):
+            return c
         return {"family": c["fam"] + ("/alt" if c.get("alt") else ""),
                 "config": {k: c[k] for k in ("cache", "ffm", "mis", "dup")}, "defaults_omitted": bool(c.get("omit")),
                 "regular_expression": fam_of(c)["re"], "regular_expression_ignore": fam_of(c)["ign"],
@@ -834,6 +838,120 @@ class C14(Check):
                 "init": list(c["init"]), "hist": [(["call-with-injected-fault", list(s[1]), list(s[2])] if s[0] == "fcall" else
                                                    ["call-with-edit-during-parse", list(s[1]), list(s[2]), s[3], s[4]] if s[0] == "cedit" else
                                                    list(s) if s[0] != "edit" else ["edit", list(s[1])] + list(s[2:])) for s in c["hist"]]}
+
+    # ---- two threads on one long-lived source (small schedule family; the general scheduler work is C19's)
+    def schedule_run(self, cfgcase, old, new, call, k, deep=False):
+        """The long-lived source has loaded `old`.  Thread B performs `call` and is paused at its k-th traced line
+        inside vinegar/data_source/text_file.py; the file is rewritten to `new`, thread C performs the same call
+        (and is given 20 ms - it may be blocked by the lock B holds), B is resumed, both are joined, then the call is
+        made once more sequentially.  Returns (answers [prologue, B, C, D], number of line events of B)."""
+        path = SB.path()
+        SB.apply(old)
+        src = TF.get_instance(make_config(cfgcase, path))
+        pro = call_source(src, call)
+        paused, resume = threading.Event(), threading.Event()
+        count = [0]
+        res = {}
+
+        def local(frame, event, arg):
+            if event == "line":
+                count[0] += 1
+                if count[0] == k:
+                    paused.set()
+                    resume.wait(5)
+            return local
+
+        def tracer(frame, event, arg):
+            if event == "call" and frame.f_code.co_filename.endswith("text_file.py") and \
+                    (deep or frame.f_code.co_name in ("get_data", "find_system")):
+                return local
+            return None
+
+        def body_b():
+            sys.settrace(tracer)
+            try:
+                res["B"] = call_source(src, call)
+            finally:
+                sys.settrace(None)
+                paused.set()
+
+        def body_c():
+            res["C"] = call_source(src, call)
+        tb = threading.Thread(target=body_b, daemon=True)
+        tb.start()
+        paused.wait(5)
+        SB.apply(new)
+        tc = threading.Thread(target=body_c, daemon=True)
+        tc.start()
+        tc.join(0.02)
+        resume.set()
+        tb.join(5)
+        tc.join(5)
+        hung = tb.is_alive() or tc.is_alive()
+        d = call_source(src, call)
+        return [pro, res.get("B", [2, 96 if hung else 97]), res.get("C", [2, 96 if hung else 97]), d], count[0]
+
+    def extra_checks(self, tier, rng, report):
+        scen = [("named", "a;1\nb;2\n", "a;2\nb;2\n", ("get", "a")), ("named", "a;1;p,q\n", "a;1;p\nc;1\n", ("get", "a")),
+                ("named", "a;1\n", "b;1\n", ("find", "x", "1")), ("numbered", "a 1\nb x\n", "a 2\n", ("get", "a.d")),
+                ("pipes", "a;r|7;c\n", "a;r;7|c\n", ("get", "a")), ("named", "a;1\n", "a;1\n#x\n", ("get", "a"))]
+        if tier == "quick":
+            scen = scen[:4]
+        lines, metas = [], []
+        for fam, old, new, call in scen:
+            for cache in (True, False):
+                cfgcase = {"fam": fam, "cache": cache, "ffm": True, "mis": "warn", "dup": "warn", "omit": False}
+                deep = tier != "quick"      # thorough: also every line of _update_data / _process_variable
+                _ans, total = self.schedule_run(cfgcase, ("text", old), ("text", new), call, 10 ** 9, deep)
+                for k in range(1, total + 1):
+                    ans, _n = self.schedule_run(cfgcase, ("text", old), ("text", new), call, k, deep)
+                    obs = [[a, a] for a in ans]
+                    # B overlaps the edit: it may take effect before or after it; C and D come after the edit
+                    hists = [[call, call, ("edit", ("text", new)), call, call], [call, ("edit", ("text", new)), call, call, call]]
+                    for h in hists:
+                        lines.append(self.line(dict(cfgcase, init=("text", old), hist=h), obs))
+                    metas.append({"_extra": True, "kind": "two threads on one source", "family": fam, "cache_enabled": cache,
+                                  "old_content": old, "new_content": new, "call": list(call),
+                                  "thread_B_paused_at_line_event": k, "of": total,
+                                  "answers_prologue_B_C_D": common._jsonable(tobytes(ans))})
+        outs = common.run_model(self.ident, lines)
+        for i, meta in enumerate(metas):
+            fails = []
+            for out in outs[2 * i:2 * i + 2]:
+                r = common.unsx(out)
+                fails.append(common.names(r[2]) if isinstance(r, list) and len(r) >= 3 else ["schedule_case_rejected"])
+                if isinstance(r, list) and len(r) >= 5 and r[4] in (0, 1):
+                    key = "cases_within_theorem_hypotheses" if r[4] == 1 else "cases_outside_theorem_hypotheses"
+                    report["extra"][key] = report["extra"].get(key, 0) + 1
+            report["evaluations"] += 1
+            if all(fails):       # neither linearisation explains the answers
+                report.setdefault("extra_failing", []).append(
+                    (meta, ["concurrent_call_not_linearizable"] + fails[0], meta["answers_prologue_B_C_D"],
+                     "answers of [prologue; B; edit; C; D] or [prologue; edit; B; C; D]"))
+        report["extra"]["two_thread_schedules"] = len(metas)
+
+    def do_replay(self, path, build):
+        import json as _json
+        doc = _json.load(open(path))
+        case = common._unpickle_b64(doc["case_pickle"]) if doc.get("case_pickle") else None
+        if not (isinstance(case, dict) and case.get("_extra")):
+            return super().do_replay(path, build)
+        cfgcase = {"fam": case["family"], "cache": case["cache_enabled"], "ffm": True, "mis": "warn", "dup": "warn", "omit": False}
+        call = tuple(case["call"])
+        old, new = ("text", case["old_content"]), ("text", case["new_content"])
+        k, total = case["thread_B_paused_at_line_event"], case["of"]
+        ans, n = self.schedule_run(cfgcase, old, new, call, k, deep=total > 12)
+        obs = [[a, a] for a in ans]
+        hists = [[call, call, ("edit", new), call, call], [call, ("edit", new), call, call, call]]
+        outs = common.run_model(self.ident, [self.line(dict(cfgcase, init=old, hist=h), obs) for h in hists])
+        fails = [common.names(common.unsx(o)[2]) for o in outs]
+        print("answers [prologue, B, C, D]:", common._jsonable(tobytes(ans)))
+        print("failed clauses if B takes effect before the edit:", fails[0])
+        print("failed clauses if B takes effect after the edit :", fails[1])
+        if all(fails):
+            print(f"VIOLATION property={self.ident} replay={path}")
+            return 1
+        return 0
 
     def shrink(self, c):
         h = c["hist"]
